@@ -607,7 +607,7 @@ class History(object):
         r = self.r
         kinds = self.kinds
         if force:
-            tkind, (si, sh) = "in-progress", force["target"]
+            tkind, (si, sh) = ("slot" if force.get("kind") == "WRITE_ENABLER" else "in-progress"), force["target"]
         else:
             tkind, si, sh = self.pick_target(route)
         method = route.methods[0]
@@ -627,7 +627,7 @@ class History(object):
         # focused attack: everything right except the per-upload / per-slot secret
         focus = None
         if force:
-            focus = "UPLOAD"
+            focus = force.get("kind", "UPLOAD")
         elif not wrong_method and r.random() < 0.4:
             if route.name in ("write_share_data", "abort_share_upload") and (si, sh) in self.uploads:
                 focus = "UPLOAD"
@@ -931,10 +931,63 @@ class History(object):
                             force={"target": (si, sh), "secret": sec_a, "recipe": "other-uploads-secret"})
                 n += 1
 
+    def slot_recreate_scenario(self):
+        """A slot is created and written by its owner, its shares go away (read-test-write with
+        new_length 0, or the bucket directory removed out of band), and somebody else re-creates a slot
+        at the SAME storage index with ANOTHER write enabler.  A read-test-write carrying the previous
+        owner's enabler (or a random one) must be refused and change nothing."""
+        from allmydata.storage.http_client import StorageClientMutables, TestWriteVectors, WriteVector
+        from allmydata.storage.common import storage_index_to_dir
+        r = self.r
+        byname = {x.name: x for x in self.routes}
+        if "mutable_read_test_write" not in byname:
+            return
+        mu = StorageClientMutables(self.store.client)
+        si = rb(r, 16)
+        self.sis.append(si)
+        w_old, w_new = rb(r, 32), rb(r, 32)
+        shares = r.choice([[0], [0, 1], [0, 2]])
+        variant = r.choice(["new-length-0", "new-length-0", "directory-removed"])
+
+        def rtw(we, tw):
+            res = self.store.run(mu.read_test_write_chunks(si, we, rb(r, 32), rb(r, 32), tw, []))
+            assert res.success
+        try:
+            rtw(w_old, {sh: TestWriteVectors(write_vectors=[WriteVector(offset=0, data=self.data_for(si, sh, 40))]) for sh in shares})
+            # the owner writes again: its enabler has now been verified against the shares' headers
+            for _ in range(r.choice([1, 2])):
+                rtw(w_old, {sh: TestWriteVectors(write_vectors=[WriteVector(offset=r.choice([0, 40]), data=b"again")]) for sh in shares})
+            if variant == "new-length-0":
+                rtw(w_old, {sh: TestWriteVectors(new_length=0) for sh in shares})
+            else:
+                shutil.rmtree(os.path.join(self.store.ss.sharedir, storage_index_to_dir(si)))
+            # another owner, another write enabler, same storage index and share numbers
+            rtw(w_new, {sh: TestWriteVectors(write_vectors=[WriteVector(offset=0, data=self.data_for(si, sh, 50))]) for sh in shares})
+        except Exception as e:      # noqa
+            self.ctx.count("legit-op-failed:" + type(e).__name__)
+            return
+        self.ctx.count("slot-recreated:" + variant)
+        self.slots[si] = w_new
+        self.slot_shares[si] = set(shares)
+        n = 0
+        for sh in shares:
+            for secret, recipe in ((w_old, "previous-owners-enabler"), (rb(r, 32), "wrong-value")):
+                self.attack("slot-recreate-%d" % n, byname["mutable_read_test_write"],
+                            force={"target": (si, sh), "secret": secret, "recipe": recipe, "kind": "WRITE_ENABLER"})
+                n += 1
+        # the new owner's enabler keeps working (counted, not judged), then the old one again
+        try:
+            rtw(w_new, {shares[0]: TestWriteVectors(write_vectors=[WriteVector(offset=3, data=b"mine")])})
+        except Exception as e:      # noqa
+            self.ctx.count("legit-op-failed:" + type(e).__name__)
+        self.attack("slot-recreate-%d" % n, byname["mutable_read_test_write"],
+                    force={"target": (si, shares[0]), "secret": w_old, "recipe": "previous-owners-enabler", "kind": "WRITE_ENABLER"})
+
     def run(self, nsteps):
         self.setup()
         self.cross_upload_scenario()
         self.full_disk_scenario()
+        self.slot_recreate_scenario()
         order = list(self.routes)
         self.r.shuffle(order)
         for step in range(nsteps):
